@@ -187,3 +187,171 @@ def gen_case_plain_ctor(rng, n_ops=4):
             rng.shuffle(k)
             peers.append((h.add(("construct", cid2, None, k), ("inst", cid2)), cid2))
     return {"table": table, "ops": h.ops, "nd": nd}
+
+
+# ------------------------------------------------------------------ a spec subclass's OWN do_not_copy list
+# (seeded change C08-F2: a re-defaulted inherited attribute took `do_not_copy` over from its owner's
+# Attr instead of from the subclass's decorator)
+SPEC_OF.update({8: 3, 9: 2, 10: 3})
+REDEFAULTS = {50: [("list", [V(7), V(8)]), ("list", []), ("list", [V(6)])],
+              51: [("dict", [(S(8), V(2))]), ("dict", [])],
+              52: [("set", [V(5)]), ("set", [])]}
+
+
+def own_dnc_table(rng):
+    """plain_family_table (K1; K2 node; K3 spec subclass; K4/K5 plain below K2; K6/K7 plain below K3)
+    in which do_not_copy is decided PER SPEC CLASS: K2 lists one to three of its mutable attributes,
+    K3 states its own list (mostly empty, a different subset, the parent's minus one, or the parent's)
+    and re-defaults mutable attributes by bare class attributes - preferably those its parent lists;
+    plus K8 = spec subclass of K3 (own list, own re-defaults), K9 = spec subclass of K2 that merely
+    inherits (own list), K10 = plain subclass of K8.  Every inherited entry of a spec subclass carries
+    an explicit "dnc" (inst_common.resolve_table takes the subclass's word for it)."""
+    t = plain_family_table(rng)
+    frozen = t[1]["frozen"]
+    k2 = {a["aid"]: a for a in t[1]["attrs"]}
+    d2 = set(rng.sample(MUTABLE_AIDS, rng.choice([1, 2, 2, 3])))
+    for aid in MUTABLE_AIDS:
+        k2[aid]["dnc"] = aid in d2
+
+    def own_list():
+        r = rng.random()
+        if r < 0.5:
+            return set()
+        if r < 0.7:
+            return set(rng.sample(MUTABLE_AIDS, rng.choice([1, 2])))
+        if r < 0.85:
+            return d2 - {rng.choice(sorted(d2))}
+        return set(d2)
+
+    def entries(aids, own, redefault_rate, keep=None):
+        out = []
+        for aid in aids:
+            e = {"aid": aid, "inherited": True, "dnc": aid in own}
+            old = (keep or {}).get(aid)
+            if old is not None and "override" in old:
+                e["override"] = old["override"]
+            if aid in REDEFAULTS and rng.random() < (redefault_rate * (2.0 if aid in d2 else 1.0)):
+                e["override"] = rng.choice(REDEFAULTS[aid])
+            if aid == 1 and "override" not in e and rng.random() < redefault_rate:
+                e["override"] = V(rng.choice([8, 9]))
+            out.append(e)
+        return out
+    k2_aids = [a["aid"] for a in t[1]["attrs"]]
+    k3_old = {a["aid"]: a for a in t[2]["attrs"] if a.get("inherited")}
+    k3_own = [a for a in t[2]["attrs"] if not a.get("inherited")]
+    d3 = own_list()
+    t[2]["attrs"] = entries(k2_aids, d3, 0.4, keep=k3_old) + k3_own
+    k3_aids = k2_aids + [a["aid"] for a in k3_own]
+    t.append({"id": 8, "base": 3, "eager": rng.random() < 0.5, "frozen": frozen, "frozen_inherited": True,
+              "attrs": entries(k3_aids, own_list(), 0.2)})
+    t.append({"id": 9, "base": 2, "eager": rng.random() < 0.5, "frozen": frozen, "frozen_inherited": True,
+              "attrs": entries(k2_aids, own_list(), 0.0 if rng.random() < 0.7 else 0.3)})
+    ov = []
+    if rng.random() < 0.4:
+        ov.append({"aid": 50, "inherited": True, "override": ("list", [V(5)])})
+    t.append({"id": 10, "base": 8, "kind": "plain", "frozen": frozen, "frozen_inherited": True, "attrs": ov})
+    return t, d2, d3
+
+
+def gen_case_own_dnc(rng, n_ops=5):
+    """peers of the spec subclasses (K3 re-defaulting, K8 below it, the merely inheriting sibling K9),
+    of the plain classes below them and of the parent, built from the SAME mutable argument objects
+    given for attributes the PARENT lists in do_not_copy / the subclass re-defaults; then copies made
+    by reset_<other>() / with_<other>() / deepcopy, in-place mutation through every holder (peer, copy,
+    the caller's nested instance), del / reset_<a> with a `same` assertion against a new instance,
+    further peers from the same arguments"""
+    table, d2, d3 = own_dnc_table(rng)
+    _, heap0 = ic.resolve_table(table)
+    nd = len(heap0)
+    h = FamHist(rng, table, nd)
+    first = rng.choice([3, 3, 3, 6, 7, 8, 9, 10, 2])
+    second = rng.choice([first, first, rng.choice([2, 3, 6, 8, 9, 10, 4])])
+    redefaulted = {a["aid"] for a in table[2]["attrs"] if a.get("inherited") and "override" in a}
+    mutable = [a for a in h.attrs_of(2) if a["aid"] in MUTABLE_AIDS]
+    hot = [a for a in mutable if a["aid"] in d2 or a["aid"] in d3 or a["aid"] in redefaulted]
+    chosen = rng.sample(hot, min(len(hot), rng.choice([1, 2, 2])))
+    sharp = [a for a in hot if a["aid"] in redefaulted and (a["aid"] in d2) != (a["aid"] in d3)]
+    if sharp and rng.random() < 0.7 and not any(a in sharp for a in chosen):
+        chosen[0] = rng.choice(sharp)       # re-defaulted by K3 while K2 and K3 disagree about do_not_copy
+    rest = [a for a in mutable if a not in chosen]
+    if rest and rng.random() < 0.4:
+        chosen.append(rng.choice(rest))
+    kw = [(a["aid"], h.value_for(a)) for a in chosen]
+    nested_args = [v[1] for _, v in kw if v[0] == "root" and h.kinds[v[1]][0] == "inst"]
+    extra_scalar = [(1, V(rng.choice([1, 2])))] if rng.random() < 0.5 else []
+    peers = []
+    for cid in (first, second):
+        k = list(kw) + extra_scalar
+        rng.shuffle(k)
+        peers.append((h.add(("construct", cid, None, k), ("inst", cid)), cid))
+    frozen = class_frozen(table, 2)
+    chosen_aids = {a["aid"] for a in chosen}
+    for _ in range(n_ops):
+        x, cid = rng.choice(peers)
+        attrs = h.attrs_of(cid)
+        others = [a for a in attrs if a["aid"] not in chosen_aids]
+        r = rng.random()
+        if r < 0.3 and others:                  # a copy that carries the chosen attributes over
+            o = rng.choice(others)
+            q = rng.random()
+            if q < 0.5:
+                y = h.add(("helper", x, ("reset", o["aid"]), {}), ("inst", cid))
+            elif q < 0.8:
+                y = h.add(("helper", x, ("with", o["aid"]), {"pos": [h.value_for(o)]}), ("inst", cid))
+            else:
+                y = h.add(("deepcopy", x), ("inst", cid))
+            peers.append((y, cid))
+        elif r < 0.55:
+            h.item_helper(x, cid, 0.0, 1.0)
+        elif r < 0.65:
+            h.scalar_helper(x, cid, 0.0, 1.0)
+        elif r < 0.72 and nested_args:          # the caller mutates the instance it handed in
+            y = rng.choice(nested_args)
+            h.add(("helper", y, ("with", 1), {"inplace": True, "pos": [V(rng.choice([5, 6]))]}), ("inst", 1))
+        elif r < 0.9:                           # del / reset of a chosen attribute, compared with a new instance
+            a = rng.choice(chosen)
+            target = x
+            if frozen:
+                target = h.add(("helper", x, ("reset", a["aid"]), {}), ("inst", cid))
+            elif rng.random() < 0.4:
+                h.add(("delattr", x, a["aid"]), ("none",))
+            else:
+                inplace = rng.random() < 0.6
+                res = h.add(("helper", x, ("reset", a["aid"]), {"inplace": inplace}), ("inst", cid))
+                target = x if inplace else res
+            y = h.add(("construct", cid, None, []), ("inst", cid))
+            h.add(("same", target, y, a["aid"]), None)
+            if target != x:
+                peers.append((target, cid))
+        else:                                   # a further peer from the same argument objects
+            cid2 = rng.choice([3, 6, 8, 9, 10, 7])
+            k = list(kw)
+            rng.shuffle(k)
+            peers.append((h.add(("construct", cid2, None, k), ("inst", cid2)), cid2))
+    return {"table": table, "ops": h.ops, "nd": nd}
+
+
+def own_dnc_shapes(cases):
+    """how often the generated tables have the shape of seeded change C08-F2 and its neighbours"""
+    out = {"k3_redefaults_attr_parent_lists_without_restating": 0, "k3_restates_parent_flag_on_redefaulted": 0,
+           "k3_lists_redefaulted_attr_parent_does_not": 0, "argument_for_such_attr": 0, "cow_copies": 0}
+    for c in cases:
+        k2 = {a["aid"]: bool(a.get("dnc")) for a in c["table"][1]["attrs"]}
+        hit = set()
+        for a in c["table"][2]["attrs"]:
+            if a.get("inherited") and "override" in a and a["aid"] in MUTABLE_AIDS:
+                if k2.get(a["aid"]) and not a.get("dnc"):
+                    hit.add(a["aid"])
+                elif k2.get(a["aid"]) and a.get("dnc"):
+                    out["k3_restates_parent_flag_on_redefaulted"] += 1
+                elif a.get("dnc"):
+                    out["k3_lists_redefaulted_attr_parent_does_not"] += 1
+        if hit:
+            out["k3_redefaults_attr_parent_lists_without_restating"] += 1
+        for op, _ in c["ops"]:
+            if op[0] == "construct" and op[1] in (3, 6, 7) and any(a in hit for a, _ in op[3]):
+                out["argument_for_such_attr"] += 1
+                break
+        out["cow_copies"] += sum(1 for op, _ in c["ops"] if op[0] == "deepcopy"
+                                 or (op[0] == "helper" and not op[3].get("inplace")))
+    return out
